@@ -9,6 +9,10 @@ package test
 
 //@ arith int
 
+//@ func NewBridge() (br *Bridge)
+//@   ensures br != nil && br.conn0 != nil && br.conn1 != nil && br.conn0 != br.conn1 && br.conn0.readDeadline != nil && br.conn1.readDeadline != nil && br.conn0.writeDeadline != nil && br.conn1.writeDeadline != nil &&
+//@           br.conn0.readCh != nil && br.conn1.readCh != nil && br.conn0.readCh != br.conn1.readCh && br.conn0.br == br && br.conn1.br == br && br.conn0.id == 0 && br.conn1.id == 1 && len(br.queue0to1) == 0 && len(br.queue1to0) == 0
+
 //@ func (conn *bridgeConn) Read(b []byte) (n int, err error)
 //@   requires conn.readDeadline != nil && conn.readCh != nil
 //@   requires [noalias] forall k mathint :: {msg(conn.readCh, k)} base(msg(conn.readCh, k)) != base(b)
@@ -133,5 +137,5 @@ package test
 //@   ensures [count] n == (atlock(len(br.queue0to1)) - len(br.queue0to1)) + (atlock(len(br.queue1to0)) - len(br.queue1to0))
 //@   ensures [rest] sameSeq(br.stack0, atlock(br.stack0)) && sameSeq(br.stack1, atlock(br.stack1))
 
-//@ property C18: inverse, drop, Bridge.Tick, Bridge.Push, Bridge.DropNextNWrites, Bridge.ReorderNextNWrites, Bridge.Reorder, Bridge.Drop, bridgeConn.Write
-//@ property C10: bridgeConn.Read, bridgeConn.SetReadDeadline
+//@ property C18: NewBridge, inverse, drop, Bridge.Tick, Bridge.Push, Bridge.DropNextNWrites, Bridge.ReorderNextNWrites, Bridge.Reorder, Bridge.Drop, bridgeConn.Write
+//@ property C10: NewBridge, bridgeConn.Read, bridgeConn.SetReadDeadline
